@@ -52,6 +52,11 @@ def workloads(rng, tier):
             wl.append(('delh-first2-' + tag, hbase + ['del 0,2', 'pub ' + m(), 'close']))
             wl.append(('delh-tail-' + tag, hbase + ['del 3', 'pub ' + m(), 'close']))
             wl.append(('delh-all-' + tag, hbase + ['del 0,1,2,3', 'pub ' + m(), 'close']))
+            # the newest message deleted after a Sync, with sealed segments behind the head: the empty head created at
+            # NextOffset is then the only record of it (in format V1 an empty file: no header to fsync)
+            for v2 in sorted({ver, 1}):
+                wl.append(('delt-synced-v%d-' % v2 + tag, [op_open(90, v=v2), 'pub ' + m() + ' ' + m(), 'pub ' + m() + ' ' + m(), 'pub ' + m(),
+                                                          'sync', 'del 4', 'close']))
             # trims: a bound inside a sealed segment (the survivors get a new base), a count that spans segments
             wl.append(('trimo-mid-' + tag, base + ['trimo 1', 'close']))
             wl.append(('trimc-' + tag, base + ['trimc 2', 'close']))
